@@ -1498,6 +1498,24 @@ let userfold_case (_input : string) (obs0 : string) : verdict =
    | _ -> bad ("crashed or hung: " ^ obs));
   { model = obs; oracle = !oracle }
 
+(* ---- user unfolders, Write after an error, very deep nesting: direct oracles, no model ---- *)
+let userunf_case (_input : string) (obs0 : string) : verdict =
+  let obs, _ = split_flags_all obs0 in
+  let oracle = if obs = "U ok" then [] else
+      [ ("C13", "a target with a user unfolder (Unfolders / UnfoldState) was not filled as expected: " ^ obs);
+        ("C15", "a target with a user unfolder (Unfolders / UnfoldState) was not filled as expected: " ^ obs);
+        ("C14", "a target with a user unfolder (Unfolders / UnfoldState) was not filled as expected: " ^ obs) ] in
+  { model = obs; oracle }
+let wafter_case (_f : fmt) (_input : string) (obs0 : string) : verdict =
+  let obs, _ = split_flags_all obs0 in
+  let oracle = if obs = "A ok" then [] else
+      [ ("C16", "after a failed Write the parser went on with the broken document: " ^ obs);
+        ("C03", "after a failed Write the parser went on with the broken document: " ^ obs) ] in
+  { model = obs; oracle }
+let deep_case (_f : fmt) (_input : string) (obs0 : string) : verdict =
+  let obs, _ = split_flags_all obs0 in
+  { model = obs; oracle = (if obs = "D ok" then [] else [ ("C03", "a document nested as deep as it is long was not parsed: " ^ obs) ]) }
+
 (* ---- C11: self-referential types (no model: the Go side compares original and copy) ---- *)
 let rec_case (_input : string) (obs0 : string) : verdict =
   let obs, _ = split_flags_all obs0 in
@@ -1539,13 +1557,13 @@ let () = all_fmts := fmts
 let fmt_handlers =
   ("xc", xc_case) :: ("adapt", adapt_case) ::
   List.concat_map (fun f -> [ (f.fname ^ "enc", enc_case f); (f.fname ^ "parse", parse_case f); (f.fname ^ "dec", dec_case f);
-                              ("rt" ^ f.fname, rt_case f); ("x10" ^ f.fname, x10_case f); ("hist" ^ f.fname, hist_case f); ("cuts" ^ f.fname, cuts_case f); ("scut" ^ f.fname, scut_case f) ]) fmts
+                              ("rt" ^ f.fname, rt_case f); ("x10" ^ f.fname, x10_case f); ("hist" ^ f.fname, hist_case f); ("wafter" ^ f.fname, wafter_case f); ("deep" ^ f.fname, deep_case f); ("cuts" ^ f.fname, cuts_case f); ("scut" ^ f.fname, scut_case f) ]) fmts
 
 (* a crash or hang is compared as such: what was delivered before is not part of the observation *)
 let canon_obs (o : string) : string =
   if contains o "HANG" then "HANG" else if contains o "PANIC" then "PANIC" else o
 
-let handlers : (string * (string -> string -> verdict)) list = ("lru", lru_case) :: ("fold", fold_case) :: ("unfold", unfold_case) :: ("rtgo", rtgo_case) :: ("alias", alias_case) :: ("rec", rec_case) :: ("exotic", exotic_case) :: ("userfold", userfold_case) :: ("histfold", histfold_case) :: ("histunf", histunf_case) :: fmt_handlers
+let handlers : (string * (string -> string -> verdict)) list = ("lru", lru_case) :: ("fold", fold_case) :: ("unfold", unfold_case) :: ("rtgo", rtgo_case) :: ("alias", alias_case) :: ("rec", rec_case) :: ("exotic", exotic_case) :: ("userfold", userfold_case) :: ("userunf", userunf_case) :: ("histfold", histfold_case) :: ("histunf", histunf_case) :: fmt_handlers
 
 
 let () =
